@@ -159,6 +159,8 @@ SourceSet(e, st, den, W, k) ==
                  THEN Scaled(c.img.data[iy * c.img.w + ix + 1], OptAlpha(c)) ELSE {}
          ELSE {}
     [] Has(c, "src") /\ c.src.kind = "solid" -> Scaled(c.src.c, IF c.op = "mask" THEN 255 ELSE OptAlpha(c))
+    \* image sources: the source colour observed at alpha 1, scaled by the global alpha here
+    [] Has(e, "shade1") /\ c.lat /\ Has(c, "opts") /\ Has(c.opts, "alpha") -> Scaled(e.shade1[k], OptAlpha(c))
     [] Has(e, "shade") -> {e.shade[k]}
     [] OTHER -> {}
 
